@@ -262,6 +262,37 @@ int main(void)
 			if (cur < 0) { puts("bad-op"); continue; }
 			add_slot(slot_mt[cur]->_vptr->clone(slot_mt[cur]), 0, slot_first[cur]);
 		}
+		else if (!strcmp(op, "consume") && drv_nw == 3) {
+			/* it consume d|u|skip : mpt_iterator_consume on the current iterator */
+			static const uint64_t sentinel = 0x7ff8dead0000beefULL;
+			const char *t = drv_w[2];
+			double dv; uint32_t uv = 0xdeadbeefU;
+			int r;
+			if (cur < 0) { puts("bad-op"); continue; }
+			memcpy(&dv, &sentinel, sizeof(dv));
+			if (!strcmp(t, "d")) r = mpt_iterator_consume(slot_it[cur], 'd', &dv);
+			else if (!strcmp(t, "u")) r = mpt_iterator_consume(slot_it[cur], 'u', &uv);
+			else if (!strcmp(t, "skip")) r = mpt_iterator_consume(slot_it[cur], 0, 0);
+			else { puts("bad-op"); continue; }
+			if (r < 0) printf("R err | C - | I ret=%s\n", drv_errname(r));
+			else {
+				uint64_t b; memcpy(&b, &dv, sizeof(b));
+				fputs("R ok val=", stdout);
+				if (*t == 'd') { if (b == sentinel) fputs("none", stdout); else put_num(dv, 1, 0); }
+				else if (*t == 'u') { if (uv == 0xdeadbeefU) fputs("none", stdout); else printf("%u", uv); }
+				else fputc('-', stdout);
+				printf(" | C - | I ret=%d\n", r);
+			}
+		}
+		else if (!strcmp(op, "text") && drv_nw == 2) {
+			/* the description text of the metatype ('s' conversion) */
+			const char *txt = 0;
+			if (cur < 0) { puts("bad-op"); continue; }
+			int r = MPT_metatype_convert(slot_mt[cur], 's', &txt);
+			if (r < 0) printf("R refused | C - | I ret=%s\n", drv_errname(r));
+			else if (!txt) printf("R null | C - | I ret=%d\n", r);
+			else { fputs("R text=", stdout); drv_puthex(stdout, (const uint8_t *) txt, strnlen(txt, 4096)); printf(" | C - | I ret=%d\n", r); }
+		}
 		else if (!strcmp(op, "walk") && drv_nw == 3) {
 			/* the documented loop of examples/iter.c, at most <cap> rounds */
 			size_t cap, n = 0;
